@@ -243,12 +243,16 @@ def r10_1(chk, repo, cr):
         if e.kind == "assign" and e.name == "asym":
             asym = e.value.as_atom()
     chk.need(ua is not None and asym is not None, f"{rq}: unit cell / asymmetric unit construction not found")
-    lens, angs = seq_items(ua[2][0]), seq_items(ua[2][1])
-    unit = dict(ua[3]).get("unit") if len(ua) > 3 else None
+    ukw = dict(ua[3]) if len(ua) > 3 and ua[3] else {}
+    la_ = ua[2][0] if len(ua[2]) > 0 else ukw.get("lengths")        # positional or by keyword
+    aa_ = ua[2][1] if len(ua[2]) > 1 else ukw.get("angles")
+    chk.need(la_ is not None and aa_ is not None, f"{rq}: lengths / angles arguments of the unit cell not found")
+    lens, angs = seq_items(la_), seq_items(aa_)
+    unit = ukw.get("unit")
     chk.ob("R10.1", CR, rq, "the reader takes lengths (a, b, c) and angles (alpha, beta, gamma) in that order and declares degrees",
            lens is not None and [x.key() for x in lens] == [f"{data}['cell_length_{n}']" for n in "abc"] and angs is not None
            and [x.key() for x in angs] == [f"{data}['cell_angle_{n}']" for n in ("alpha", "beta", "gamma")]
-           and unit is not None and string_value(unit) == "degrees", found=f"{ua[2][0]} {ua[2][1]} unit={unit}")
+           and unit is not None and string_value(unit) == "degrees", found=f"{la_} {aa_} unit={unit}")
     kw = dict(asym[3]) if len(asym) > 3 else {}
     fp = kw.get("positions")
     okp = False
